@@ -216,20 +216,26 @@ def check_slice(model: Model, report: Report, rule: str) -> None:
 
             def body(it: Interp, kind=kind, step=step) -> Any:
                 env = make_env(it, model, False)
-                sel = make_selector(it, model, "selectors.SliceSelector", env)
-                sl: SliceV = sel.attrs["slice"]
+                # the components are fixed before the selector is built, so that whatever its constructor derives
+                # from them is consistent with what resolve() later sees: start / stop absent or any integer
                 if step == "none":
-                    sl.step = Const(None)
+                    stv: Any = Const(None)
                 else:
-                    st = it.new_int("step")
-                    sl.step = st
+                    stv = it.new_int("step")
                     if step == "zero":
-                        it.ctx.assume_le0(st.lin)
-                        it.ctx.assume_le0(-st.lin)
+                        it.ctx.assume_le0(stv.lin)
+                        it.ctx.assume_le0(-stv.lin)
                     elif step == "positive":
-                        it.ctx.assume_le0(Lin.k(1) - st.lin)
+                        it.ctx.assume_le0(Lin.k(1) - stv.lin)
                     else:
-                        it.ctx.assume_le0(st.lin + Lin.k(1))
+                        it.ctx.assume_le0(stv.lin + Lin.k(1))
+                if kind == "list":
+                    startv = Const(None) if it.ctx.choose(("slice-start-absent",), [True, False]) else it.new_int("start")
+                    stopv = Const(None) if it.ctx.choose(("slice-stop-absent",), [True, False]) else it.new_int("stop")
+                else:
+                    startv, stopv = it.new_opaque("start"), it.new_opaque("stop")
+                sel = make_selector(it, model, "selectors.SliceSelector", env, slice_parts=(startv, stopv, stv))
+                sl: SliceV = sel.attrs["slice"]
                 v = it.new_sym("V", [kind])
                 node = make_node(it, model, v, "node")
                 ev, term = run_trace(it, fn, [sel, node], sel)
